@@ -10,20 +10,20 @@ import (
 
 // Prelude collects the declarations a VC script needs, on demand.
 type Prelude struct {
-	sortDecls   []string
-	sortDone    map[string]bool
-	funDecls    []string
-	funDone     map[string]bool
-	axioms      []string
-	strLits     map[string]string
-	strOrder    []string
-	typeIDs     map[string]int
-	typeOrder   []string
-	heapSort    map[string]string // heap var -> sort
-	heapOrder   []string
-	boxed       map[string]types.Type
-	cardSorts   map[string]bool
-	ifaceImpls  map[string]bool
+	sortDecls  []string
+	sortDone   map[string]bool
+	funDecls   []string
+	funDone    map[string]bool
+	axioms     []string
+	strLits    map[string]string
+	strOrder   []string
+	typeIDs    map[string]int
+	typeOrder  []string
+	heapSort   map[string]string // heap var -> sort
+	heapOrder  []string
+	boxed      map[string]types.Type
+	cardSorts  map[string]bool
+	ifaceImpls map[string]bool
 }
 
 func NewPrelude() *Prelude {
